@@ -205,6 +205,14 @@ func Pool() []Block {
 				N("Request").WithKids(N("Headers").WithBody("{\n  \"H\": \"v\"\n}"), N("Body", "any")),
 				N("200").WithBody("{\n  \"ok\": true\n}"))
 		})},
+		// a URL block with URL-level Tags and a method of its own, and a method block on the same path
+		// written on its own (it is not enclosed by the URL: the automatic tag)
+		{Name: "H_samepath", Kind: "http", Defines: []string{"path:/sp"}, Needs: []string{"tag:@g"}, Nodes: func() []*Node {
+			return []*Node{
+				N("URL", "/sp").WithParen().WithKids(N("Tags", "@g"), N("GET").WithKids(N("200", "any"))),
+				N("POST", "/sp").WithParen().WithKids(N("200", "any")),
+			}
+		}},
 		// a response / a request that carries its schema itself AND has a Headers child below it
 		{Name: "H_bh", Kind: "http", Defines: []string{"path:/bh"}, Nodes: one(func() *Node {
 			return N("POST", "/bh").WithKids(
